@@ -119,3 +119,73 @@ func definedOnlyByErrorCtor(c *Ctx, info *types.Info, fd *ast.FuncDecl, o types.
 	})
 	return n > 0 && n == good
 }
+
+func init() {
+	register(&Rule{ID: "ERR.discarded", Floor: 10,
+		Doc: "no kernel statement discards the *LVal result of a call that can be an error value (a call used as a statement, assigned to _, or deferred): a failed binding, lookup or package operation would go unnoticed",
+		Run: func(c *Ctx) []Obligation {
+			fresh := c.freshReturning()
+			var obs []Obligation
+			for _, u := range c.Funcs(isKernel) {
+				info := u.Pkg.TypesInfo
+				ord := &ordinal{}
+				check := func(ce *ast.CallExpr, n ast.Node, how string) {
+					tv, ok := info.Types[ce]
+					if !ok || !isLValPtr(c, tv.Type) {
+						return
+					}
+					fn := originOf(Callee(info, ce))
+					name := "dynamic call"
+					if fn != nil {
+						name = FuncName(fn)
+						// pure constructors cannot fail
+						if fresh[fn] && !canReturnError(c, fn) {
+							return
+						}
+					}
+					construct := ord.next(how + " " + name)
+					obs = append(obs, mkOb(c, "ERR.discarded", u, construct, n, Undecided,
+						"the *LVal result of "+name+" is dropped; if it is an error value the failure is silent", false))
+				}
+				ast.Inspect(u.Decl.Body, func(n ast.Node) bool {
+					switch s := n.(type) {
+					case *ast.ExprStmt:
+						if ce, ok := ast.Unparen(s.X).(*ast.CallExpr); ok {
+							check(ce, s, "statement")
+						}
+					case *ast.DeferStmt:
+						check(s.Call, s, "defer")
+					case *ast.AssignStmt:
+						if len(s.Rhs) == 1 && len(s.Lhs) == 1 {
+							if id, ok := s.Lhs[0].(*ast.Ident); ok && id.Name == "_" {
+								if ce, ok := ast.Unparen(s.Rhs[0]).(*ast.CallExpr); ok {
+									check(ce, s, "blank-assign")
+								}
+							}
+						}
+					}
+					return true
+				})
+			}
+			return obs
+		}})
+}
+
+// canReturnError: the function contains a call to an Error* constructor.
+func canReturnError(c *Ctx, fn *types.Func) bool {
+	fd := c.declOf[fn]
+	if fd == nil || fd.Body == nil {
+		return true
+	}
+	info := c.pkgOf[fd].TypesInfo
+	found := false
+	for _, ce := range callsIn(fd.Body, true) {
+		if f := Callee(info, ce); f != nil {
+			switch f.Name() {
+			case "Errorf", "Error", "ErrorCondition", "ErrorConditionf":
+				found = true
+			}
+		}
+	}
+	return found
+}
